@@ -90,8 +90,10 @@ def check(col: Collector, tier: str):
             guarded = any((not tr_) and src(t).endswith("replacement_instance_obj is None") for t, tr_ in gs)
             if guarded and src(kk) == "cpp_ast_node.replacement_instance_obj[0]" and isinstance(vv, ast.Call) and call_name(vv) == "as_cpp":
                 inner = vv.func.value
-                if isinstance(inner, ast.Attribute) and inner.attr == "rep" and isinstance(inner.value, ast.Call) and call_name(inner.value) == "resolve_id":
-                    a0 = resolve_name(fn, inner.value.args[0])
+                # the receiver is an expression of the query: translated like an argument (in place), its C++ takes the placeholder's place
+                if isinstance(inner, ast.Call) and call_name(inner) in ("get_rep", "get_rep_value") and inner.args and not any(
+                        k.arg == "retain_scope" for k in inner.keywords):
+                    a0 = resolve_name(fn, inner.args[0])
                     ok_obj = src(a0) == "cpp_ast_node.replacement_instance_obj[1]"
     col.add("C11.R9", pan.short, "method-object-bound-to-the-receiver", ok_obj,
             "under `replacement_instance_obj is not None` the method object's placeholder (element [0]) must be mapped to the C++ of the receiver "
@@ -101,8 +103,8 @@ def check(col: Collector, tier: str):
             f"zip(cpp_ast_node.args, call_node.args); pairs found: {[(src(k), src(v)[:30]) for k, v, _, _ in pairs]}", pan.loc)
     bc = repo.function("build_CPPCodeValue")
     ro = [n for n in walk_no_nested(bc.node) if isinstance(n, ast.Assign) and src(n.targets[0]).endswith(".replacement_instance_obj")]
-    ok = len(ro) == 1 and src(ro[0].value).replace(" ", "") == "(spec.method_object,call_node.func.value.id)"
-    col.add("C11.R9", bc.short, "receiver-recorded-with-the-method-object", ok, "(spec.method_object, <receiver name>)", bc.loc)
+    ok = len(ro) == 1 and src(ro[0].value).replace(" ", "") == "(spec.method_object,call_node.func.value)"
+    col.add("C11.R9", bc.short, "receiver-recorded-with-the-method-object", ok, "(spec.method_object, <receiver expression>)", bc.loc)
 
     # ------------------------------------------------------------ R2 isolation protocol
     col.floor("C11.R2", 4)
@@ -194,6 +196,14 @@ def check(col: Collector, tier: str):
         pmf = parent_map(f.node)
         ok = any(isinstance(r, ast.Raise) and any((not tr_) and src(t) == "len(call_node.args) == 1" for t, tr_ in guards(f.node, r, pmf)) for r in walk_no_nested(f.node))
         col.add("C11.R3", f"{f.module.name.split('.')[-2]}.isNonnullAst", "arity-checked", ok, "", f.loc)
+        # isNonnull is a function: invoked like a method (e.isNonnull(x)) it must be refused like a metadata function is (the receiver would
+        # be dropped silently)
+        inst_ = [n_ for n_ in walk_no_nested(f.node) if isinstance(n_, ast.Assign) and src(n_.targets[0]) == "call_node.func"]
+        style = any(isinstance(r, ast.Raise) and any(tr_ and src(t) == "isinstance(call_node.func, ast.Attribute)" for t, tr_ in guards(f.node, r, pmf))
+                    for r in walk_no_nested(f.node)) and len(inst_) == 1 and \
+            ("isinstance(call_node.func, ast.Attribute)", False) in {(src(t), tr_) for t, tr_ in guards(f.node, inst_[0], pmf)}
+        col.add("C11.R3", f"{f.module.name.split('.')[-2]}.isNonnullAst", "method-style-call-refused", style,
+                "a raise under isinstance(call_node.func, ast.Attribute), before the node is rewritten", f.loc)
 
     # ------------------------------------------------------------ R4 includes / libraries
     col.floor("C11.R4", 3)
@@ -303,6 +313,8 @@ def check(col: Collector, tier: str):
     # ------------------------------------------------------------ R6 discovery
     col.floor("C11.R6", 4)
     check_finder(col, "C11.R6", repo)
+    from sa.props._tr import check_finder_receivers
+    check_finder_receivers(col, "C11.R6", repo)
 
     # ------------------------------------------------------------ R7 metadata -> specification
     col.floor("C11.R7", 8)
